@@ -79,6 +79,7 @@ Definition c11_known_sites : list string := [].
 
 Definition c11_reviewed_sites : list string := [
   (* formerly behind known findings; repaired in /repo (b89d7b9): they now treat ';' like EOF / un-consume *)
+  "parser/mod:parse_show/next_loop/-#0"; (* SHOW <words>: advances over word tokens only, so it stops in front of ';' and EOF *)
   "parser/mod:parse_flush/next_loop/-#0";
   "parser/mod:parse_cache_table/eof/-#0";
   "parser/mod:parse_cache_table/eof/-#1";
@@ -125,7 +126,9 @@ Definition c11_known_kinds : list string := [].
     index is written (backtracking in parse_wildcard_expr: save at entry, restore on the fallback
     path); the index is reset by with_tokens*, so it cannot leak between parses. *)
 Definition c14_reviewed_writes : list string := [
-  "parser/mod:parse_wildcard_expr/write/index#0"
+  "parser/mod:parse_wildcard_expr/write/index#0";
+  (* FILTER (WHERE ..) after a function call: save before FILTER, restore when `(WHERE` does not follow *)
+  "parser/mod:parse_function/write/index#0"
 ].
 
 (** C14: reads of a token's [.location].  Every one feeds an error constructor (parser_err!,
@@ -147,7 +150,10 @@ Definition c14_location_reads : list string := [
   "parser/mod:parse_create_external_table/location/-#0";
   "parser/mod:parse_create_role/location/-#0";
   "parser/mod:parse_drop/location/-#0";
-  "parser/mod:parse_hive_formats/location/-#0";
+  "parser/mod:parse_drop/location/-#1";
+  "parser/mod:parse_create/location/-#0";
+  "parser/mod:parse_hive_formats/location/-#0";   (* the LOCATION field of HiveFormat, not a token location *)
+  "parser/mod:parse_hive_formats/location/-#1";
   "parser/mod:parse_create_table/location/-#0";
   "parser/mod:parse_optional_table_constraint/location/-#0";
   "parser/mod:parse_call/location/-#0";
